@@ -136,7 +136,7 @@ theorem processMatches_agg (q : SemQuery) (hagg : q.isAgg = true) (hx : q.except
 
 theorem stepRecord_agg (q : SemQuery) (B : Table) (jm : JoinMap)
     (hsel : q.isUpdate = false) (hagg : q.isAgg = true) (hx : q.exceptCols = none)
-    (hjm : ∀ js, q.join = some js → (jm.maxLen = maxWidth B ∧
+    (hjm : ∀ js, q.join = some js → (jm.maxLen = nullWidth js B ∧
         ∀ key, jm.get key = (partnersSpec js.rhs B key).map (fun p => (p.1, p.2.length, p.2))))
     (st : LoopState) (hnu : st.nu = 0) (hstop : st.stop = false)
     (hf : st.chain.forbidsAggregation = false) (nr : Nat) (recA : Row)
@@ -193,7 +193,7 @@ theorem aggEmissions_cons_ok {q : SemQuery} {B : Table} {recA : Row} {rest : Tab
 loop never stops early and the writer chain is untouched -/
 theorem mainLoop_agg (q : SemQuery) (B : Table) (jm : JoinMap)
     (hsel : q.isUpdate = false) (hagg : q.isAgg = true) (hx : q.exceptCols = none)
-    (hjm : ∀ js, q.join = some js → (jm.maxLen = maxWidth B ∧
+    (hjm : ∀ js, q.join = some js → (jm.maxLen = nullWidth js B ∧
         ∀ key, jm.get key = (partnersSpec js.rhs B key).map (fun p => (p.1, p.2.length, p.2))))
     (A : Table) (nr : Nat) (st : LoopState) (hnu : st.nu = 0) (hstop : st.stop = false)
     (hf : st.chain.forbidsAggregation = false)
@@ -421,7 +421,7 @@ theorem finishAll_agg (q : SemQuery) (hsel : q.isUpdate = false) (ho : q.orderBy
 theorem run_unfold_agg (q : SemQuery) (A B : Table) (hsel : q.isUpdate = false) (ho : q.orderBy = none)
     (hjb : ∀ js, q.join = some js → joinBError js.rhs B = none) :
     ∃ jm, run q A B = runWith q A B jm ∧
-      ∀ js, q.join = some js → (jm.maxLen = maxWidth B ∧
+      ∀ js, q.join = some js → (jm.maxLen = nullWidth js B ∧
         ∀ key, jm.get key = (partnersSpec js.rhs B key).map (fun p => (p.1, p.2.length, p.2))) := by
   cases hj : q.join with
   | none =>
@@ -433,10 +433,11 @@ theorem run_unfold_agg (q : SemQuery) (A B : Table) (hsel : q.isUpdate = false) 
     | ok p => obtain ⟨st, n⟩ := p; simp
   | some js =>
     obtain ⟨jm, h1, h2, h3⟩ := joinMap_build_ok js.rhs B (hjb js hj)
-    refine ⟨jm, ?_, fun js' h => by cases h; exact ⟨h2, h3⟩⟩
+    refine ⟨jm.widen js.nullWidth, ?_, fun js' h => by
+      cases h; exact ⟨by simp only [JoinMap.widen, nullWidth, h2], h3⟩⟩
     unfold run runWith
-    simp only [ho, hsel, hj, Option.isSome_none, Bool.or_self, Bool.and_false, Bool.false_eq_true, if_false, h1]
-    cases h : mainLoop q jm A 0 { chain := buildChain q {} } with
+    simp only [ho, hsel, hj, Option.isSome_none, Bool.or_self, Bool.and_false, Bool.false_eq_true, if_false, h1, Except.map]
+    cases h : mainLoop q (jm.widen js.nullWidth) A 0 { chain := buildChain q {} } with
     | error p => obtain ⟨e, st, n⟩ := p; rfl
     | ok p => obtain ⟨st, n⟩ := p; simp
 
